@@ -231,7 +231,9 @@ namespace detail
 	{
 		GLM_STATIC_ASSERT(std::numeric_limits<genIUType>::is_integer, "'mask' accepts only integer values");
 
-		return Bits >= static_cast<genIUType>(sizeof(genIUType) * 8) ? ~static_cast<genIUType>(0) : (static_cast<genIUType>(1) << Bits) - static_cast<genIUType>(1);
+		// on the unsigned counterpart: (1 << 31) - 1 overflows a signed int
+		typedef typename detail::make_unsigned<genIUType>::type UType;
+		return Bits >= static_cast<genIUType>(sizeof(genIUType) * 8) ? ~static_cast<genIUType>(0) : static_cast<genIUType>((static_cast<UType>(1) << Bits) - static_cast<UType>(1));
 	}
 
 #if GLM_COMPILER & GLM_COMPILER_CLANG
